@@ -5,7 +5,7 @@ FENCE_NOTE = ("Trusts: x86-64 Linux page protection and the fault error code (wr
               "and 20-40 line C models). Accesses inside mapped memory that is no arena slot are not observed.")
 
 ENGINES = [
-    {"name": "uni", "path": "harness/uni.c", "serves_properties": ["C17", "C01", "C02"], "kind_free_text": "Unicode driver: fold-length monitor and normalisation pipe server; reference in vlib/unicode_ref.py"},
+    {"name": "uni", "path": "harness/uni.c", "serves_properties": ["C17", "C01", "C02", "C03", "C04", "C05"], "kind_free_text": "Unicode driver: fold-length monitor, string-level fold / normalise sweeps (every dmax, both operand orders, state after a failed call) and normalisation pipe server; reference in vlib/unicode_ref.py"},
     {"name": "oom", "path": "harness/oom.c", "serves_properties": ["C20"], "kind_free_text": "allocation-failure enumerator (--wrap malloc/calloc/realloc/free) with live-block table"},
     {"name": "cons", "path": "harness/cons.c", "serves_properties": ["C05", "C04", "C03", "C01", "C02"], "kind_free_text": "one documented constraint violation at a time for the printf/scanf, tokenizer, sort/search, fold/normalise, conversion and time/env/file exports; handler count/code, dest cleared"},
     {"name": "wfmt", "path": "harness/wfmt.c", "serves_properties": ["C01", "C02", "C03", "C04", "C05", "C08"], "kind_free_text": "wide buffer printf_s functions on valid formats around every dmax (libc swprintf differential) and scanf_s families on valid input"},
